@@ -17,7 +17,7 @@ from concurrent.futures import ThreadPoolExecutor
 
 VERIF = os.path.dirname(os.path.dirname(os.path.abspath(__file__)))
 SPEC_DIR = os.path.join(VERIF, "spec")
-EVID_DIR = os.path.join(VERIF, "evidence")
+EVID_DIR = os.environ.get("VERIF_EVIDENCE_DIR", os.path.join(VERIF, "evidence"))
 REPLAY_DIR = os.path.join(EVID_DIR, "replays")
 REPO = os.environ.get("SELFIES_REPO", "/repo")
 TLA_JAR = "/opt/veriftools/tla/tla2tools.jar"
